@@ -172,6 +172,101 @@ var c09WellNested = []string{
 	`<my-x id=a><my-y>t</my-y></my-x><b>u</b>`, `<p><b><a href="/x">t</a></b></p><p><a>v</a></p>`,
 }
 
+// c08Depth: nesting of skipped elements is honoured at depths beyond the search's bound (counter widths): n nested
+// disallowed skip-content elements (one name, and two names alternating) around a marker, then text that must appear.
+func c08Depth(c *run.Ctx) {
+	b := build(specByName("ugc"))
+	for _, n := range []int{4, 127, 128, 129, 255, 256, 257, 258, 300, 32769, 65537} {
+		for vi, names := range [][]string{{"object"}, {"object", "frameset"}} {
+			if !c.Own([]byte("c08depth"), []byte(fmt.Sprint(n, vi))) {
+				continue
+			}
+			var sb strings.Builder
+			for i := 0; i < n; i++ {
+				sb.WriteString("<" + names[i%len(names)] + ">")
+			}
+			sb.WriteString("<b>inside</b>")
+			for i := n - 1; i >= 0; i-- {
+				sb.WriteString("</" + names[i%len(names)] + ">")
+				if i == n-1 || i == n/2 {
+					sb.WriteString("<b>still inside</b>") // after the innermost and a middle one have closed
+				}
+			}
+			sb.WriteString("<b>after</b>")
+			doc := sb.String()
+			out, pm := San(b.P, doc)
+			c.Eval()
+			c.Transitions++
+			c.Traces++
+			c.NontrivialN++
+			before := ""
+			cs := e2Case{Spec: b.S, Doc: doc, Before: &before}
+			switch {
+			case pm != "":
+				c.Violate("panic", "Sanitize panicked: "+pm, cs)
+			case out != "<b>after</b>":
+				c.Violate("depth|"+fmt.Sprint(n), fmt.Sprintf("%d nested disallowed skip-content elements around <b>inside</b>, then <b>after</b>: output %s, expected only <b>after</b>", n, run.Q(tail(out, 200))), cs)
+				c.Outcome("violation|depth")
+			default:
+				c.Outcome("deep-nesting-honoured")
+			}
+		}
+	}
+}
+
+func tail(s string, n int) string {
+	if len(s) <= n {
+		return s
+	}
+	return "..." + s[len(s)-n:]
+}
+
+// c09RawText: raw-text / RCDATA elements whose text looks like tags. For the tokenizer (and a browser) the text is
+// text, so these documents are well nested; whatever the policy does with the element, the output must be balanced.
+func c09RawText(c *run.Ctx) {
+	var bs []built
+	for _, s := range e2Specs() {
+		switch s.Name {
+		case "e2-default", "e2-ugc", "e2-iframe-attrs", "e2-spaces", "e2-keep-object":
+			bs = append(bs, build(s))
+		}
+	}
+	for _, raw := range []string{"textarea", "title", "xmp", "iframe", "noscript", "noembed", "noframes", "plaintext"} {
+		for _, inner := range []string{"x </b> y", "</p>", "<b>", "</span></b>", "<a href=\"http://e.x/\">", "</i></p></b>"} {
+			for _, wrap := range [][2]string{{"<b>", "</b>"}, {"<p><span id=q>", "</span></p>"}, {"", ""}} {
+				doc := wrap[0] + "<" + raw + ">" + inner + "</" + raw + ">" + wrap[1]
+				if raw == "plaintext" {
+					doc = wrap[0] + "<" + raw + ">" + inner // never ends
+					if wrap[0] != "" {
+						continue
+					}
+				}
+				for i := range bs {
+					b := &bs[i]
+					if !c.Own([]byte("c09raw"+b.S.Name), []byte(doc)) {
+						continue
+					}
+					out, pm := San(b.P, doc)
+					c.Eval()
+					c.Transitions++
+					c.Traces++
+					c.NontrivialN++
+					if pm != "" {
+						continue
+					}
+					if sig, what := c09Balance(out); sig != "" {
+						before := ""
+						c.Violate("raw-text|"+sig, fmt.Sprintf("%s; policy=%s document=%s output=%s", what, b.S.Name, run.Q(doc), run.Q(out)), e2Case{Spec: b.S, Doc: doc, Before: &before})
+						c.Outcome("violation|raw-text")
+						continue
+					}
+					c.Outcome("raw-text-balanced")
+				}
+			}
+		}
+	}
+}
+
 // c09TwoCalls: the balance of a well-nested document's output does not depend on what the policy sanitised before
 // (any fragment sequence of length <=3, well nested or not).
 func c09TwoCalls(c *run.Ctx) {
@@ -222,6 +317,10 @@ func runE2(c *run.Ctx, prop string) {
 	}
 	if prop == "C09" {
 		c09TwoCalls(c)
+		c09RawText(c)
+	}
+	if prop == "C08" {
+		c08Depth(c)
 	}
 	// every policy of the family is built in every shard (and in the replay), in this order, before any search starts:
 	// constructing or extending one policy must not change another (shared default tables would show here)
@@ -585,6 +684,10 @@ func replayE2(raw json.RawMessage, prop string) (bool, string) {
 		out, pm := San(b.P, cs.Doc)
 		if pm != "" {
 			return true, "panic: " + pm
+		}
+		if prop == "C08" {
+			// the depth probes: only the text after the nested skipped elements may come out
+			return out != "<b>after</b>", "deeply nested skipped elements: output " + run.Q(tail(out, 200)) + ", expected only <b>after</b>"
 		}
 		sig, what := c09Balance(out)
 		return sig != "", what + " output=" + run.Q(out) + " after sanitising " + run.Q(*cs.Before)
